@@ -40,6 +40,8 @@ def parse : List String → Option (Option Ev)
   | ["mul", m] => (lockOf m).map (fun m => some (.mul m))
   | ["ald", a, o, v] => (flagOf a).bind (fun a => (ordOf o).bind (fun o => (boolOf v).map (fun v => some (.ld a o v))))
   | ["ast", a, "sc", v] => (flagOf a).bind (fun a => (boolOf v).map (fun v => some (.st a v)))
+  -- an exchange whose result is ignored is a store for the protocol (the model's `st` is "a seq_cst write of the flag")
+  | ["axc", a, "sc", v, _] => (flagOf a).bind (fun a => (boolOf v).map (fun v => some (.st a v)))
   | ["cna", c] => (cvOf c).map (fun c => some (.cna c))
   | ["cwt", c, m] => (cvOf c).bind (fun c => (lockOf m).bind (fun m => if c = m then some (some (.cwt c)) else none))
   | ["cwk", c, m, r] => (cvOf c).bind (fun c => (lockOf m).bind (fun m => (wakeOf r).bind (fun r =>
